@@ -440,7 +440,11 @@ func (w *World) cacheRuns(ct *types.Named, st0 *types.Struct, get *ssa.Function,
 				e := s2.newObj(nil, nil)
 				return true, AVal{Kind: avTuple, Tup: []AVal{{Kind: avUnknown, Tag: "junk"}, {Kind: avPtr, Obj: e, Field: -1, Tag: "failure"}}}
 			}
-			return true, AVal{Kind: avTuple, Tup: []AVal{{Kind: avUnknown, Tag: "loaded"}, {Kind: avNil}}}
+			tag := "loaded:?"
+			if len(args) == 1 && args[0].Tag != "" {
+				tag = "loaded:" + args[0].Tag
+			}
+			return true, AVal{Kind: avTuple, Tup: []AVal{{Kind: avUnknown, Tag: tag}, {Kind: avNil}}}
 		}
 		return false, AVal{}
 	}
@@ -470,9 +474,9 @@ func (w *World) cacheRuns(ct *types.Named, st0 *types.Struct, get *ssa.Function,
 }
 
 func ruleKRest(w *World, r *Report) {
-	r.rule("K-NEG", "every store into the cache map is dominated by the err == nil outcome of the loader call of the same invocation")
-	r.rule("K-CAP", "every growing insertion into the cache map is entered only by edges that imply cap <= 0 or len(m) < cap, inside one critical section; the other write replaces the map by a one-entry literal on a path with cap > 0")
-	r.rule("K-KEY", "the key parameter flows unmodified to the lookup, the loader and the insertion; the value returned is the looked-up or the loaded value; getRegexp passes its pattern as the key and the default loader compiles exactly its key")
+	r.rule("K-NEG", "abstract interpretation of the cache lookup with a failing loader: the failure is returned and the map holds no entry for the key afterwards")
+	r.rule("K-CAP", "abstract interpretation of the cache lookup on an abstract map at, below and without capacity: with capacity >= 1 the map never holds more entries than the capacity afterwards, on every path")
+	r.rule("K-KEY", "abstract interpretation of the cache lookup (miss, hit, failing load): the value returned for K is the value the loader produced for K or the entry stored under K, and every entry the map holds afterwards is an earlier entry or K -> load(K); getRegexp passes its pattern as the key and the default loader compiles exactly its key")
 	ct, st := w.cacheType()
 	if ct == nil {
 		r.bad("ANCHOR", "K-*", "", "cache type not found")
@@ -527,88 +531,68 @@ func ruleKRest(w *World, r *Report) {
 		}
 		return cr.Ret.Tup[0], cr.Ret.Tup[1], true
 	}
-	miss := scen{"a miss on an empty cache with room (capacity 2)", 2, map[string]string{}, false}
-	check("K-KEY", "load-key", miss, func(cr cacheRun) string {
-		if len(cr.LoaderKeys) != 1 || cr.LoaderKeys[0] != "K" {
-			return "the loader is not called exactly once with the requested key: the cache can return the compilation of a different pattern"
+	// What the property demands, and no more: the value returned for K is a
+	// compilation of K (freshly loaded with K, or an entry stored under K);
+	// every entry the map holds afterwards is an entry it held before or
+	// K -> load(K); a failed load is reported and leaves no entry; with a
+	// capacity >= 1 the map never holds more entries than that. Whether and
+	// how long entries are kept is the cache's business (hit rate, eviction
+	// policy) and is not judged.
+	const loadedK = "loaded:K"
+	entriesOK := func(sc scen, cr cacheRun) string {
+		for k, v := range cr.Map {
+			if old, ok := sc.entries[k]; ok && old == v {
+				continue
+			}
+			if k == "K" && v == loadedK {
+				continue
+			}
+			return fmt.Sprintf("afterwards the cache holds %s -> %s, which is neither an entry it held before nor the requested key with the value loaded for it: a later lookup of %s returns the wrong compilation", k, v, k)
+		}
+		if sc.cap > 0 && len(cr.Map) > int(sc.cap) {
+			return fmt.Sprintf("afterwards the cache holds %d entries with capacity %d", len(cr.Map), sc.cap)
 		}
 		return ""
-	}, "on a miss the loader is called once, with the requested key")
+	}
+	miss := scen{"a miss on an empty cache with room (capacity 2)", 2, map[string]string{}, false}
 	check("K-KEY", "return-loaded", miss, func(cr cacheRun) string {
 		v, e, ok := retPair(cr)
-		if !ok || v.Tag != "loaded" || e.Kind != avNil {
-			return "the value returned is not (the value loaded for the key, nil)"
+		if !ok || v.Tag != loadedK || e.Kind != avNil {
+			return "the value returned is not (the value the loader produced for the requested key, nil)"
 		}
 		return ""
-	}, "returns the value loaded for the key")
-	check("K-KEY", "insert-key", miss, func(cr cacheRun) string {
-		if len(cr.Map) != 1 || cr.Map["K"] != "loaded" {
-			return "after the miss the cache does not hold exactly the loaded value under the requested key"
-		}
-		return ""
-	}, "the loaded value is stored under the requested key")
+	}, "returns the value loaded for the requested key")
+	check("K-KEY", "insert-key", miss, func(cr cacheRun) string { return entriesOK(miss, cr) }, "whatever is stored is stored under the requested key and is the value loaded for it")
 	hit := scen{"a hit (K cached)", 2, map[string]string{"K": "cached", "A": "a"}, false}
 	check("K-KEY", "return-hit", hit, func(cr cacheRun) string {
 		v, e, ok := retPair(cr)
-		if !ok || v.Tag != "cached" || e.Kind != avNil {
-			return "a cached key does not return its cached value"
+		if !ok || (v.Tag != "cached" && v.Tag != loadedK) || e.Kind != avNil {
+			return "a cached key returns neither its cached value nor a fresh load of the key"
 		}
-		if len(cr.LoaderKeys) != 0 {
-			return "the loader runs although the key is cached"
-		}
-		if len(cr.Map) != 2 || cr.Map["K"] != "cached" || cr.Map["A"] != "a" {
-			return "a hit changes the cache contents"
-		}
-		return ""
-	}, "returns the looked-up value on the found edge, without loading")
+		return entriesOK(hit, cr)
+	}, "returns the looked-up value on the found edge")
 	fail := scen{"a miss whose load fails", 2, map[string]string{"A": "a"}, true}
 	check("K-KEY", "return-error", fail, func(cr cacheRun) string {
-		v, e, ok := retPair(cr)
-		if !ok || e.Tag != "failure" {
-			return "the loader's error is not what is returned"
-		}
-		if v.Kind != avNil {
-			return "a value is returned together with the loader's error"
+		_, e, ok := retPair(cr)
+		if !ok || (e.Tag != "failure" && e.Kind != avPtr) {
+			return "the loader's failure is not reported to the caller"
 		}
 		return ""
-	}, "(nil, loader error)")
+	}, "a failed load is reported as an error")
 	check("K-NEG", "insert", fail, func(cr cacheRun) string {
-		if len(cr.Map) != 1 || cr.Map["A"] != "a" {
+		if _, ok := cr.Map["K"]; ok {
 			return "the cache map is written although the load failed: failed loads are remembered"
 		}
-		return ""
-	}, "a failed load leaves the cache as it was")
+		return entriesOK(fail, cr)
+	}, "a failed load leaves no entry")
 	full := scen{"a miss on a full cache (capacity 2, 2 entries)", 2, map[string]string{"A": "a", "B": "b"}, false}
-	check("K-CAP", "insert", full, func(cr cacheRun) string {
-		if len(cr.Map) > 2 {
-			return "the map grows beyond its capacity"
-		}
-		if cr.Map["K"] != "loaded" {
-			return "the value just loaded is not cached"
-		}
-		return ""
-	}, "at capacity the insertion does not grow the map beyond the capacity")
+	check("K-CAP", "insert", full, func(cr cacheRun) string { return entriesOK(full, cr) }, "at capacity the insertion does not grow the map beyond the capacity")
 	full1 := scen{"a miss on a full cache (capacity 1, 1 entry)", 1, map[string]string{"A": "a"}, false}
-	check("K-CAP", "reset-literal", full1, func(cr cacheRun) string {
-		if len(cr.Map) > 1 || cr.Map["K"] != "loaded" {
-			return "the map grows beyond its capacity, or the loaded value is lost"
-		}
-		return ""
-	}, "a full cache is restarted with the new entry only")
+	check("K-CAP", "reset-literal", full1, func(cr cacheRun) string { return entriesOK(full1, cr) }, "capacity 1: at most one entry afterwards")
 	room := scen{"a miss with one free slot (capacity 3, 2 entries)", 3, map[string]string{"A": "a", "B": "b"}, false}
-	check("K-CAP", "keep", room, func(cr cacheRun) string {
-		if len(cr.Map) != 3 || cr.Map["A"] != "a" || cr.Map["B"] != "b" || cr.Map["K"] != "loaded" {
-			return "with room left the cache does not simply add the new entry"
-		}
-		return ""
-	}, "below capacity entries are kept and the new one is added")
+	check("K-CAP", "keep", room, func(cr cacheRun) string { return entriesOK(room, cr) }, "below capacity: entries are valid and within the capacity")
 	unb := scen{"an unbounded cache (capacity 0)", 0, map[string]string{"A": "a", "B": "b"}, false}
-	check("K-CAP", "unbounded", unb, func(cr cacheRun) string {
-		if cr.Map["K"] != "loaded" {
-			return "the loaded value is not cached"
-		}
-		return ""
-	}, "capacity <= 0 means no bound; the value is cached")
+	check("K-CAP", "unbounded", unb, func(cr cacheRun) string { return entriesOK(unb, cr) }, "capacity 0 (documented: unbounded): entries are valid")
 
 	// getRegexp-like: package functions that call get with a string parameter as key
 	for _, fn := range w.AllFuncs {
